@@ -279,7 +279,11 @@ func writeObjUnit(u *oUnit, out string) (nfailed int) {
 		}
 	}()
 	var b strings.Builder
-	b.WriteString(strings.ReplaceAll(oPrelude, "NAMESPACE", u.Namespace))
+	prelude := strings.ReplaceAll(oPrelude, "NAMESPACE", u.Namespace)
+	if u.Header != "" {
+		prelude = u.Header + prelude[strings.Index(prelude, "import AtreeModel.Basic"):]
+	}
+	b.WriteString(prelude)
 	b.WriteString(structs)
 	b.WriteString("/-- what the translated functions call and gotrans does not translate: methods of open interfaces, the slab storage,\n    package functions, package variables, error constructors -/\n")
 	b.WriteString("structure Env")
